@@ -225,6 +225,7 @@ def main():
             print(f"{m['name']}: pattern occurs {src.count(m['old'])}x, expected {m['count']} -- SKIPPED")
             continue
         open(path, "w").write(src.replace(m["old"], m["new"]))
+        sh("rm -rf /verif/target/evbak-sens; mkdir -p /verif/target/evbak-sens; cp -a /verif/evidence/. /verif/target/evbak-sens/")
         try:
             for c in m["checks"]:
                 t0 = time.time()
@@ -238,6 +239,7 @@ def main():
                     print(r.stdout[-600:])
         finally:
             sh("git -C /repo checkout -- .")
+            sh("cp -a /verif/target/evbak-sens/. /verif/evidence/")
     log.close()
 
 if __name__ == "__main__":
